@@ -32,12 +32,15 @@ CONSTANTS MaxLen,      \* longest generated text value
 
 DQ == 34  PC == 37  NL == 10  SP == 32  HASH == 35  US == 95
 TextAlphabet == {122, SP, DQ, PC, 52, 123, 125, NL, HASH, 233}      \* z space " % 4 { } \n # e-acute
-NameAlphabet == {98, 49, 45, 46, SP, US}                            \* b 1 - . space _
+\* b 1 - . space _  and what is a letter / digit / mark only outside ASCII: o-umlaut, ARABIC-INDIC DIGIT THREE,
+\* COMBINING ACUTE ACCENT, an emoji - none of them may appear in a VCL identifier
+NameAlphabet == {98, 49, 45, 46, SP, US, 246, 1635, 769, 128512}
 
 RECURSIVE SeqsUpTo(_, _)
 SeqsUpTo(A, n) == IF n = 0 THEN {<<>>} ELSE LET S == SeqsUpTo(A, n - 1) IN S \cup {Append(s, a) : s \in {t \in S : Len(t) = n - 1}, a \in A}
 Texts == SeqsUpTo(TextAlphabet, MaxLen)
-Names == {<<98>> \o s : s \in SeqsUpTo(NameAlphabet, 2)}             \* Fastly names start with a letter
+Names == {<<98>> \o s : s \in SeqsUpTo(NameAlphabet, 2)}             \* names that start with an ASCII letter
+         \cup {<<246>>, <<246, 1635>>, <<128512, 246>>, <<75, 246, 108, 110, SP, 111>>}   \* and names without one / "Koeln o" with an umlaut
 
 RECURSIVE Flat(_)
 Flat(ss) == IF ss = <<>> THEN <<>> ELSE Head(ss) \o Flat(Tail(ss))
@@ -98,7 +101,14 @@ DictItems ==
   {<<>>} \cup {<<[key |-> t, value |-> Z]>> : t \in Texts \ {<<>>}} \cup {<<[key |-> Z, value |-> t]>> : t \in Texts}
   \cup {<<[key |-> t, value |-> t]>> : t \in {u \in Texts : Len(u) = MaxLen}}
   \cup {<<[key |-> Z, value |-> t], [key |-> <<122, 122>>, value |-> Z], [key |-> <<52>>, value |-> t]>> : t \in {u \in Texts : Len(u) = 1}}
-Dicts == {[kind |-> "dict", name |-> <<100>>, items |-> its] : its \in DictItems}
+RECURSIVE Digits(_)
+Digits(n) == IF n < 10 THEN <<48 + n>> ELSE Digits(n \div 10) \o <<48 + (n % 10)>>
+\* listings longer than a page of the API (100 records): every item distinguishable
+PageSizes == {0, 1, 99, 100, 101, 150, 201, 250}
+ManyItems(n) == [i \in 1..n |-> [key |-> <<107>> \o Digits(i), value |-> <<118>> \o Digits(i)]]                  \* k<i>: v<i>
+ManyEntries(n) == [i \in 1..n |-> [ip |-> <<49, 48, 46, 48, 46>> \o Digits(i \div 250) \o <<46>> \o Digits(i % 250),  \* 10.0.x.y
+                                  negated |-> (i % 2 = 0), subnet |-> 32, comment |-> <<>>]]
+Dicts == {[kind |-> "dict", name |-> <<100>>, items |-> its] : its \in DictItems \cup {ManyItems(n) : n \in PageSizes}}
 
 IPs == {<<49, 48, 46, 48, 46, 48, 46, 48>>, <<50, 48, 48, 49, 58, 100, 98, 56, 58, 58, 49>>}     \* 10.0.0.0  2001:db8::1
 Entries == {[ip |-> ip, negated |-> ng, subnet |-> sn, comment |-> <<>>] : ip \in IPs, ng \in BOOLEAN, sn \in {-1, 0, 8, 128}}
@@ -106,7 +116,8 @@ Entries == {[ip |-> ip, negated |-> ng, subnet |-> sn, comment |-> <<>>] : ip \i
 Acls == {[kind |-> "acl", name |-> <<97>>, entries |-> es] :
            es \in {<<>>} \cup {<<e>> : e \in Entries}
                   \cup {<<e, [ip |-> <<50, 48, 48, 49, 58, 100, 98, 56, 58, 58, 49>>, negated |-> TRUE, subnet |-> -1, comment |-> <<>>]>> :
-                          e \in {x \in Entries : x.comment # <<>> /\ Len(x.comment) = 1}}}
+                          e \in {x \in Entries : x.comment # <<>> /\ Len(x.comment) = 1}}
+                  \cup {ManyEntries(n) : n \in PageSizes \ {0}}}
 
 Hosts == {<<>>} \cup {<<104>>, <<104, 46, 122>>} \cup {t \in Texts : Len(t) = 1}          \* <<>> = no address
 Backends == {[kind |-> "backend", name |-> n, address |-> h] : n \in Names, h \in {<<104>>}}
@@ -171,8 +182,6 @@ Cases == Dicts \cup Acls \cup Backends \cup Directors \cup Multis
 
 S(str) == [lit |-> str]          \* a literal piece of template text (the harness concatenates pieces)
 V(cs) == [cs |-> cs]             \* a variable piece, code points
-RECURSIVE Digits(_)
-Digits(n) == IF n < 10 THEN <<48 + n>> ELSE Digits(n \div 10) \o <<48 + (n % 10)>>
 Num(n) == IF n < 0 THEN <<45>> \o Digits(-n) ELSE Digits(n)
 
 RenderDict(d) ==
